@@ -63,6 +63,13 @@ CHECKS['C07'] = dict(
          'S/R(T,True)=S/R(T)-sum n_Z S_el[Z] with n_Z parsed from the molecular formula. Exploration.',
     note='Trusted: pmutt gas-constant and elemental-entropy tables; RDKit CalcMolFormula.',
     ref='DESIGN.md C07')
+CHECKS['C18'] = dict(
+    technique='Hypothesis-generated correlations x output-unit choices, round trip format -> load with presence/exactness/6-digit comparison; all shipped groups',
+    text='ThermochemGroup objects (0-15 Cp points, H/S present/absent/zero/negative, with/without range, float and numpy.float64 values over 11 decades) are formatted with 9 unit choices '
+         '(none, kcal|kJ|J|cal per mol, K/mK/kK) and re-loaded through the tagged YAML loader; presence pattern, T_ref, range and table temperatures (6 digits), non-dimensional values (exact) and '
+         'dimensional values (6 digits) must survive. Every shipped group x 3 unit choices too. Exploration.',
+    note='Trusted: PyYAML scalar parsing. 6 significant digits = 5e-6 relative.',
+    ref='DESIGN.md C18')
 NOT_YET = {}
 
 def main():
